@@ -334,10 +334,12 @@ fn main() {
                     writeln!(out, "PANIC").unwrap();
                 }
             }
+            out.flush().unwrap();
             continue;
         }
         if dead || router.is_none() {
             writeln!(out, "DEAD").unwrap();
+            out.flush().unwrap();
             continue;
         }
         let r = router.as_mut().unwrap();
@@ -442,5 +444,6 @@ fn main() {
                 writeln!(out, "PANIC").unwrap();
             }
         }
+        out.flush().unwrap();
     }
 }
